@@ -16,6 +16,21 @@ CHECKS = {
  "C02": ("exploration", "6 C02",
          "Seeded histories (edits, backups with any options, backups killed before a random storage operation and later resumed, deletes, gc); after every archive-changing step every completed version and 'latest' are restored and compared with the reference snapshot model.",
          "deterministic simulation of operation histories with crash injection + archive reference model"),
+ "C03": ("fault_enumeration", "6 C03",
+         "Crash-point enumeration in simulation: for each sampled scenario the final backup is killed before EVERY storage operation of its trace (and, for writes, leaving a zero-length file); each crashed world is checked for openability, exact restore of earlier versions, no dangling reference, stitched listing/restore of the interrupted version against the reference stitch, and a completing follow-up backup.",
+         "deterministic simulation with exhaustive crash-point injection per scenario (crash = cancellation, only the simulated store survives)"),
+ "C04": ("fault_enumeration", "6 C04",
+         "Storage-error enumeration in simulation: every operation of the final backup's trace fails once with each of four error kinds, plus seeded multi-fault runs; oracles from an independent decoder (every recorded entry reassembles to its source bytes, earlier files untouched, clean success implies exact restore, no panic).",
+         "deterministic simulation with exhaustive single-fault injection per scenario + seeded multi-fault sequences"),
+ "C05": ("fault_enumeration", "6 C05",
+         "Delete/gc at the end of seeded histories: fault-free oracle (refusal exactly when predicted, exact band set, reference scan, dry run identical) and, for real deletes, a crash before EVERY operation and every read/list/stat failing once; every kept complete version must still restore exactly.",
+         "deterministic simulation with exhaustive crash-point and read-fault injection per scenario"),
+ "C06": ("exploration", "6 C06",
+         "Two simulated Conserve processes (backup and delete/gc) racing through storage one operation at a time under a scheduler the simulator owns: all single-preemption schedules in both orders, sampled three-preemption schedules (thorough) and seeded biased-random schedules, over directed archive states (basis being deleted, garbage whose content reappears) and random histories.",
+         "deterministic simulation of two racing processes with a controlled scheduler: systematic preemption-bounded schedules + seeded random schedules"),
+ "C14": ("fault_enumeration", "6 C14",
+         "Operation-log oracles in simulation: an unchanged tree backed up again writes no block and records identical addresses; over histories no block path is written while it holds content; and for EVERY crash point of a backup the resumed backup rewrites nothing and reuses the interrupted run's recorded entries.",
+         "deterministic simulation with exhaustive crash-point injection per scenario + operation-log oracle"),
  "C13": ("exploration", "6 C13",
          "Same seeded histories (plus the crash variant that leaves a zero-length file), decoded after every step by an independent reader of format 0.6 and checked against doc/format.md.",
          "deterministic simulation of histories with crash injection + independent format decoder as oracle"),
